@@ -16,9 +16,9 @@ META = {
     'technique': 'translation validation: every generated client method / serve arm / name arm of a corpus of service definitions is checked (from the MIR of the expansion) against the '
                  'definition it came from; plus a syn-based lint of the generator\'s quote! templates (lock-step repetition over order-preserving images of one method list)',
     'text': 'For every service in a generated corpus (method counts 0-6, 0-4 arguments of equal and differing types, default/explicit return types, raw identifiers, underscore and mixed-case '
-            'names, cfg\'d methods, attributes, derive options) the macro expansion compiled by rustc is validated: client method m builds request variant V(m) whose fields are its own '
+            'names, cfg\'d methods, attributes, derive options, Option-typed arguments and results) the macro expansion compiled by rustc is validated: client method m builds request variant V(m) whose fields are its own '
             'parameters in declaration order, passes its ctx to the stub, and unwraps response variant V(m); the serve arm for V(m) calls trait method m with (self.service, ctx, fields in '
-            'order) and wraps the awaited result in response variant V(m); name() maps V(m) to "<Service>.<m>". Independently, the generator lint shows that in every quote! template each '
+            'order) and wraps the awaited result in response variant V(m); name() maps V(m) to "<Service>.<m>"; the serializers derived for the generated enums announce a constant field count per variant equal to the number of arguments and never skip a field (C17.wire: the wire form does not depend on argument values, e.g. None). Independently, the generator lint shows that in every quote! template each '
             'repetition interpolates only scalars and sequences that are order-preserving images of the one method list, so index i of every sequence comes from method i for ANY accepted '
             'definition; and that every fixed associated name the templates add next to user methods (new, serve) is rejected by the parser.',
     'note': 'Trusted: rustc (the expansion is validated after macro expansion and type checking), quote!\'s lock-step repetition semantics, syn parsing. Services outside the corpus are covered '
